@@ -411,7 +411,7 @@ func exhaustive(o *common.Options) []Case {
 	}
 	bits := 8
 	if o.Thorough() {
-		bits = 16
+		bits = 14
 	}
 	early := "4548" // "EH"
 	// SOCKS5, no auth, IPv4
